@@ -156,9 +156,24 @@ CLAIMS = [
                 'batch 2. Aggregation (ragged) and premade model graphs are not under contract.',
         'design_ref': 'DESIGN.md section 4 C09',
     },
+    {
+        'property_id': 'C15',
+        'level': 'other',
+        'technique': 'contract-based deductive verification: real pwl_calibration_fn / cdf_fn / CDF.call on free symbolic '
+                     'parameters, softmax / sigmoid / exp / log uninterpreted under axioms, abstract product lemmas instantiated, '
+                     'staged obligations; z3/cvc5',
+        'text': 'Accepted call forms (incl. omitted interior keypoint parameters), output range, monotonicity for every pair '
+                'x <= y, clamped ends, cyclic ends, missing value mapping for pwl_calibration_fn; [0,1] range and monotonicity for '
+                'CDF / cdf_fn (relu6 and sigmoid, mean / none reductions, all scaling types) - for ALL parameter values. One '
+                'genuine defect (None interior parameters rejected) found and repaired by a fix: commit.',
+        'note': 'Trusted: operator contracts, axioms for softmax/sigmoid/exp/log, NonNeg constraint of Keras, z3/cvc5, reals for '
+                'floats. Not proved: the [0, 1+eps] bound of the geometric-mean reduction (only its monotonicity). Bounded: 2-3/4 '
+                'keypoints, units <= 2, input_dim <= 2.',
+        'design_ref': 'DESIGN.md section 4 C15',
+    },
 ]
 
 _PENDING = 'check not built yet in this session (planned, see DESIGN.md section 4); not claimed until its check exists'
 NOT_APPLICABLE = [
-    {'property_id': 'C%02d' % i, 'reason': _PENDING} for i in range(2, 21) if i not in (2, 4, 5, 6, 7, 9, 12, 13, 19, 20)
+    {'property_id': 'C%02d' % i, 'reason': _PENDING} for i in range(2, 21) if i not in (2, 4, 5, 6, 7, 9, 12, 13, 15, 19, 20)
 ]
